@@ -95,6 +95,24 @@ add("C19", "exploration",
     "Only the stated direction is asserted (a malformed input may be classified as EOF).",
     "DESIGN.md section 4/C19")
 
+add("C04", "exploration",
+    "property-based round trip over a hand-built type family covering every Serde data-model category, on the value path and the text path, plus injectivity on the family",
+    "Exploration over inputs and programs (types): ~50 concrete types, each with a hand-written strategy, chosen to cover every Serde category and the nestings that are shape-ambiguous in S-expressions. Every drawn value goes Rust -> Value -> Rust and Rust -> text -> Rust through all entry points; unequal values of one type must not collapse to equal S-expressions.",
+    "The family is finite: a category combination outside it is not exercised. Equality is the types' PartialEq (NaN handled separately).",
+    "DESIGN.md section 4/C04", engine="proptest-harness")
+
+add("C14", "exploration",
+    "comparison with an independent documented-shape serializer, and enumeration of alternative encodings (flip / improper / wrong kind) per sequence and tuple node",
+    "Exploration: an independent serde::Serializer records the Serde category of every node; a shape function written from the crate documentation turns that tree into the expected S-expression, compared structurally with to_value. For the acceptance clause EVERY sequence/tuple node of every drawn value is flipped list<->vector (must deserialize to the original), given an improper tail of each atom kind and replaced by each wrong kind (must fail with a data error).",
+    "Trusts the shape function (harness/src/serde_fam.rs), written from serde-lexpr's crate-level documentation and the property statement.",
+    "DESIGN.md section 4/C14", engine="proptest-harness")
+
+add("C18", "exploration",
+    "mutation-based fuzzing of serialized values, wild values and cross-type values against every family type under catch_unwind, with a re-serialization consistency oracle",
+    "Exploration: for every family type, inputs are near-valid mutations of real encodings (16 structural operators), wild values of every kind, and encodings of other family types; deserialization must not panic, errors must be data errors, and every accepted value must survive serialize + deserialize unchanged. The success fraction is reported and must stay above 5%.",
+    "Only serde-lexpr's Deserializer is under test; visitors come from serde_derive and std.",
+    "DESIGN.md section 4/C18", engine="proptest-harness")
+
 NOT_YET = {}
 
 def main():
